@@ -2,11 +2,11 @@ import Ecal.Drivers.Util
 import Ecal.Model.PrattTable
 /-!
 Driver of C08. Payload (space separated; see go/cmd/harness/c08.go):
-  `<src-hex> <ev:0|1> <node>` with
+  `<src-hex> <flags: 1 = evaluated, 2 = FormatFiles run> <node>` with
   `node = Z | N <name-hex> <binding> <ld> <tok> <nmeta> {<P|Q|O> <val-hex>}* <nchildren> <node>*`,
   `tok = - | T <id> <val-hex> <raw> <identifier> <prefixNewlines> <line> <col>` —
 the AST the REAL parser produced for the source. Result:
-  `txt=<hex of the model printer's text> rt=ok|diff|* idem=ok|* [beh=ok]`
+  `txt=<hex of the model printer's text> rt=ok|diff|* idem=ok|diff|* [ff=ok] [beh=ok]`
 `rt`/`idem` are what the theorems predict (`ok`), except for the classes listed below, where the code as
 it is deviates (`diff`, with `kf=` and `spec=`) or where no prediction is made (`*`; Go prints `*` for the
 same structurally defined classes and only counts its observations).
@@ -190,9 +190,37 @@ def blockThenStatement (n : Node) : Bool :=
     pairsAny (fun a b => (a.name = "mutex" || a.name = "sink") &&
       (match (leftLeaf b).tok with | some t => t.prefixNl ≤ 1 | none => true)) x.children) n
 
+/-- the printed text of the subtree contains a newline (structural: blank line, block comment,
+    multi-line list / map, any block) -/
+def hasNewline (n : Node) : Bool :=
+  anyNode (fun x =>
+    (match x.tok with | some t => decide (t.prefixNl > 1) | none => false) || x.metas.any (·.pre) ||
+    (x.name = "list" && x.children.length > 4) || (x.name = "map" && x.children.length > 2) ||
+    ["statements", "function", "if", "loop", "try", "mutex", "sink"].contains x.name) n
+
+/-- walk an identifier chain: (hit, seen) — a composition access after a call / access spanning lines -/
+partial def chainBreak (x : Node) (seen : Bool) : Bool × Bool :=
+  x.children.foldl (fun (acc : Bool × Bool) c =>
+    match c with
+    | some c =>
+      if acc.1 then acc
+      else if c.name = "compaccess" then
+        if acc.2 then (true, true) else (false, hasNewline c)
+      else if c.name = "funccall" then (false, acc.2 || hasNewline c)
+      else if c.name = "identifier" then chainBreak c acc.2
+      else acc
+    | none => acc) (false, seen)
+
+/-- class `newline-inside-statement` (no comment needed): in an identifier chain a composition access
+    `[…]` follows a call / access whose text spans lines; the `[` is no longer on the identifier's line -/
+def hasPostfixAfterNewline (n : Node) : Bool :=
+  anyNode (fun x => x.name = "identifier" && (chainBreak x false).1) n
+
 def runCase (payload : String) : String :=
   match payload.splitOn " " with
-  | _src :: ev :: rest =>
+  | _src :: flags :: rest =>
+    let ev := flags
+    let ff := flags = "2" || flags = "3"
     match parseNode rest with
     | some (some ast, []) =>
       match prettyPrint (some ast) with
@@ -203,7 +231,8 @@ def runCase (payload : String) : String :=
         let mul := hasMulRight ast
         let (inside, ownBlank) := insideFlags ast true
         let sign := hasSignStart ast
-        let post := hasUnstablePost ast txt || inside
+        let ev := if ev = "1" || ev = "3" then "1" else "0"
+        let post := hasUnstablePost ast txt || inside || hasPostfixAfterNewline ast
         let wild := post || ownBlank || hasPreComment ast || blockThenStatement ast
         -- cross-check of the expression-level model (the one the theorems are about)
         let (drift, xc) : Option String × Bool :=
@@ -224,7 +253,7 @@ def runCase (payload : String) : String :=
           let rt := if post then "*" else if raw || mul || sign then "diff" else "ok"
           let idem := if wild then "*" else if sign then "diff" else "ok"
           let line (rt : String) := "txt=" ++ hexEnc txt ++ " rt=" ++ rt ++ " idem=" ++ idem ++
-            (if ev = "1" && rt = "ok" then " beh=ok" else "")
+            (if ff then " ff=ok" else "") ++ (if ev = "1" && rt = "ok" then " beh=ok" else "")
           let kf : Option String :=
             if post then some "newline-inside-statement"
             else if sign then some "stmt-starts-with-sign"
@@ -233,7 +262,7 @@ def runCase (payload : String) : String :=
             else if wild then some "layout-not-idempotent"
             else none
           let specRt := if post then "ok" else "ok"
-          let specLine := "txt=" ++ hexEnc txt ++ " rt=" ++ specRt ++ " idem=ok" ++ (if ev = "1" then " beh=ok" else "")
+          let specLine := "txt=" ++ hexEnc txt ++ " rt=" ++ specRt ++ " idem=ok" ++ (if ff then " ff=ok" else "") ++ (if ev = "1" then " beh=ok" else "")
           line rt
             ++ (if countNodes ast ≥ 3 then "\tnt=1" else "")
             ++ (if xc then "\txc=1" else "")
